@@ -2,5 +2,6 @@ SPECIFICATION Spec
 CONSTANT Depth = 4
 CONSTANT Shift = "0"
 CONSTANT Win0 = 1
+CONSTANT Mms = 0
 INVARIANT Emit
 CHECK_DEADLOCK FALSE
